@@ -127,6 +127,14 @@ func (tr *Tracer) step(st *state) (*state, []*state) {
 	case *ssa.FieldAddr:
 		x := tr.val(st, in.X)
 		fld := fieldVar(in.X.Type(), in.Field)
+		// a field reached through embedded structs is a field of the outer object (the language promotes it): the
+		// cell is named after the outer object, so that a field moved into an embedded base struct keeps its identity
+		for x.Kind == KFieldAddr && x.Field != nil && x.Field.Embedded() && x.Args[0] != nil {
+			if _, isPtr := x.Field.Type().Underlying().(*types.Pointer); isPtr {
+				break // embedded by pointer: a different object
+			}
+			x = x.Args[0]
+		}
 		f.regs[in] = &Sym{Kind: KFieldAddr, Args: []*Sym{x}, Field: fld, FIdx: in.Field, Typ: in.Type()}
 	case *ssa.Field:
 		x := tr.val(st, in.X)
